@@ -4,3 +4,6 @@ import BufrProps.C01
 #print axioms Bufr.C01.C01_layout_rederived
 #print axioms Bufr.C01.C01_element
 #print axioms Bufr.C01.C01_raw_bits
+#print axioms Bufr.C01.C01_dynamic_subset
+#print axioms Bufr.C01.C01_dynamic_roundtrip
+#print axioms Bufr.C01.C01_dynamic_positions
